@@ -10,6 +10,16 @@ CHECKS = {
    "Every limit m from 64 to n+2 (n = exact cycle count) for each program of a fixed family covering spans, respans, loops, calls, stdlib procedures and non-terminating loops is executed on the real Process; success iff m >= n, else CycleLimitExceeded(m) with the clock stopped at m+1; the ExecutionOptions::new grid is enumerated completely. Exhaustive within the stated family and window, which is what an off-by-one in limit enforcement needs to show.",
    "n is measured on the same implementation under the default limit; programs outside the family and limits above 2n are not covered.",
    "DESIGN.md §5 C15"),
+ "C05": ("model_checking",
+   "explicit-state BFS over instruction sequences + bounded-exhaustive single-step enumeration on the real assembler/processor against a reference interpreter",
+   "Every instruction form (421 incl. every index/immediate form and out-of-range parameters) x all operand tuples over an 11-value boundary alphabet x 7 initial depths is executed on the real VM and compared with a reference interpreter written from the instruction reference (documented result, documented failure class incl. error codes, documented-undefined inputs excluded). A breadth-first search over sequences of 65 instructions from 12 initial stacks (depth 2 quick / 3 thorough) re-materialises every state on a fresh VM, also runs each history as one program, and compares both with the reference; LIFO family over pushes/drops across the 16-element boundary.",
+   "Reference model refvm is trusted (written from docs/src/user_docs/assembly, self-tested); values outside the alphabet and sequences longer than the BFS depth are not covered; exact depth is compared only where determined at instruction level.",
+   "DESIGN.md §5 C05"),
+ "C06": ("model_checking",
+   "exhaustive enumeration of control-flow nestings x all environment answer sequences (deviation-bounded) on the real assembler/processor against a reference interpreter",
+   "All nestings to depth 2 (quick) / 3 (thorough, 32 621 programs) of if/else, if, while, repeat, exec of local and imported procedures with and without locals; every decision point reads its condition from the advice stack, so all binary answer sequences up to the length bound are the explored schedules, plus one non-binary deviation at every decision prefix. Oracles: reference interpreter (marker-spelled path), behavioural equality with the repeat-unrolled / exec-pasted program, and NotBinaryValue for any non-binary condition.",
+   "Reference model refvm trusted; one nested construct per body; answer sequences cut at the stated length bound (count reported).",
+   "DESIGN.md §5 C06"),
 }
 NA_REASON = "check not built yet in this round (planned, see DESIGN.md §11); no claim is made"
 m = {
